@@ -20,6 +20,7 @@ var verifHarnesses = map[string]func(a []int){
 	"H_C19_route":      func(a []int) { H_C19_route(a[0], a[1]) },
 	"H_C19_cors":       func(a []int) { H_C19_cors(a[0]) },
 	"H_C19_attrs":      func(a []int) { H_C19_attrs(a[0]) },
+	"H_C19_conc":       func(a []int) { H_C19_conc(a[0], a[1], a[2]) },
 	"H_C19_chain":      func(a []int) { H_C19_chain(a[0], a[1], a[2]) },
 	"H_C11":            func(a []int) { H_C11(a[0], a[1], a[2], a[3], a[4], a[5]) },
 	"H_C10":            func(a []int) { H_C10(a[0], a[1], a[2], a[3], a[4], a[5]) },
